@@ -262,6 +262,14 @@ func (C11) Generate(c *Ctx, r *Rand, index int) *Scenario {
 			argv = append(argv, f)
 		}
 	}
+	// a flag that belongs to a format is drawn more often when that format is in use
+	for _, ff := range [][2]string{{"lua", "--lua-globals"}, {"lua", "--lua-unquoted"}, {"lua", "--lua-prefix=x = "}, {"lua", "--lua-suffix="}, {"xml", "--xml-strict-mode"}, {"xml", "--xml-keep-namespace"}, {"xml", "--xml-raw-token"},
+		{"xml", "--xml-skip-directives"}, {"xml", "--xml-skip-proc-inst"}, {"xml", "--xml-attribute-prefix="}, {"xml", "--xml-content-name="}, {"props", "--properties-array-brackets"}, {"props", "--properties-separator="},
+		{"csv", "--csv-auto-parse"}, {"csv", "--csv-separator=;"}, {"tsv", "--tsv-auto-parse"}, {"yaml", "--header-preprocess=false"}} {
+		if (ff[0] == fi.Name || ff[0] == outFmt) && rs.Chance(1, 5) && !containsArg(argv, ff[1]) {
+			argv = append(argv, ff[1])
+		}
+	}
 	sc.Meta["keep_flags"] = []any{"-p=" + fi.Name}
 	if rs.Chance(1, 12) {
 		// no -p: the format comes from the file extension, which may name any format, also output-only ones
@@ -310,10 +318,10 @@ func (C11) Generate(c *Ctx, r *Rand, index int) *Scenario {
 		}
 		sc.TmpOther = c.W.DiskRoot != "" && rs.Chance(1, 2)
 	}
-	if fi.Name == "yaml" && c.W.Strace != "" && rs.Chance(1, 40) {
+	if fi.Name == "yaml" && c.W.Strace != "" && rs.Chance(1, 20) {
 		// split output into files while the process runs out of descriptors (EMFILE from some open on)
 		argv = append([]string{"-s=.id"}, argv...)
-		sc.Strace = "openat:error=EMFILE:when=" + strconv.Itoa(rs.Range(3, 14)) + "+"
+		sc.Strace = "openat:error=EMFILE:when=" + strconv.Itoa(Pick(rs, []int{3, 4, 5, 6, 7, 7, 7, 8, 9, 11, 14})) + "+" // the first create is the 7th open of a run (3rd of its thread)
 		sc.NoHooks = true // the hook layer opens files of its own
 		sc.Plan = Plan{}
 		sc.WatchdogS = 8
